@@ -44,12 +44,12 @@ def parseAttr (w : String) : Option AttrD :=
   | [k, o] => do
     let k ← Kind.ofName k
     let o ← if o = "1" then some true else if o = "0" then some false else none
-    pure ⟨k, o, false, false⟩
+    pure ⟨k, o, false, false, false⟩
   | [k, o, r] => do     -- r: `Type()` is REFERENCE_TYPE
     let k ← Kind.ofName k
     let o ← if o = "1" then some true else if o = "0" then some false else none
     let r ← if r = "1" then some true else if r = "0" then some false else none
-    pure ⟨k, o, false, r⟩
+    pure ⟨k, o, false, r, false⟩
   | _ => none
 
 /-- the lenient-mode substitution of `STEPattribute::STEPread` applied to the top-level values of one part -/
